@@ -76,7 +76,7 @@ def run(ctx) -> None:
                           loc=fn.loc(call))
             elif in_config:
                 n_cfg += 1
-    ctx.floor("R1", "text open() sites on the rewrite/diff path", n_rw, 6)
+    ctx.floor("R1", "text open() sites on the rewrite/diff path", n_rw, 4)
     ctx.floor("R1", "text open() sites in config", n_cfg, 3)
 
     # ---------------------------------------------------------------- R2
@@ -84,9 +84,24 @@ def run(ctx) -> None:
     ctx.visit(dls.fq)
     rets = [n for n in walk_no_nested(dls.node) if isinstance(n, ast.Return)]
     ctx.floor("R2", "returns of detect_line_sep", len(rets), 1)
+    def possible(e: ast.AST) -> T.Optional[T.List[T.Any]]:
+        if isinstance(e, ast.Constant):
+            return [e.value]
+        if isinstance(e, ast.Name):
+            for lp in walk_no_nested(dls.node):
+                if isinstance(lp, ast.For) and isinstance(lp.target, ast.Name) and lp.target.id == e.id and len(shapes.local_defs(dls, e.id)) == 1:
+                    try:
+                        return list(prog.fold(dls.module, lp.iter))
+                    except AnalysisError:
+                        return None
+            d = shapes.single_def(dls, e.id)
+            if d is not None:
+                return possible(d)
+        return None
     for r in rets:
-        v = const_str(r.value)
-        ctx.check("R2", v is not None and v != "", f"detect_line_sep returns the non-empty constant {v!r}", "rewrite.detect_line_sep can return an empty or computed separator",
+        vals = possible(r.value)
+        good = vals is not None and all(isinstance(v, str) and v != "" for v in vals)
+        ctx.check("R2", good, f"detect_line_sep returns non-empty constant separator(s) {vals!r}", "rewrite.detect_line_sep can return an empty or computed separator",
                   unparse(r), loc=dls.loc(r))
     ctx.check("R2", not cfgs.get(dls.fq).nodes[cfgs.get(dls.fq).exit].extra.get("implicit_from"), "detect_line_sep never falls off its end",
               "rewrite.detect_line_sep can return None", "", loc=dls.loc())
@@ -161,9 +176,9 @@ def run(ctx) -> None:
         fp = floops[0].target.elts[0].id
         ok = unparse(floops[0].iter) == f"rewrite.iter_path_patterns_items({it.params[0]})"
         ctx.check("R4", ok, f"{ifq}: iterates rewrite.iter_path_patterns_items({it.params[0]})", f"{ifq}: files are not taken from the configured file patterns", unparse(floops[0].iter), loc=it.loc())
-        ropens = [s.node for s in effects.sites[ifq] if s.detail.get("via") == "open"]
-        ok = len(ropens) == 1 and isinstance(ropens[0].func, ast.Attribute) and unparse(ropens[0].func.value) == fp
-        ctx.check("R4", ok, f"{ifq}: reads `{fp}` itself", f"{ifq}: content is read from a different path than the one recorded", "", loc=it.loc())
+        ropens = shapes.open_sites_through_helpers(prog, effects, it)
+        ok = len(ropens) >= 1 and all(unparse(p) in (fp, f"str({fp})") for _c, _o, p, _k in ropens)
+        ctx.check("R4", ok, f"{ifq}: reads `{fp}` itself", f"{ifq}: content is read from a different path than the one recorded", f"{[unparse(p) for _c, _o, p, _k in ropens]}", loc=it.loc())
         ys = [n for n in ast.walk(it.node) if isinstance(n, ast.Yield)]
         ok = len(ys) == 1 and unparse(ys[0].value).endswith(f"._replace(path=str({fp}))")
         ctx.check("R4", ok, f"{ifq}: yields the record with path=str({fp})", f"{ifq}: the recorded path is not the path that was read", unparse(ys[0].value) if ys else "", loc=it.loc())
